@@ -346,6 +346,11 @@ void add_type(Node *node) {
   case ND_EXCH:
     if (node->lhs->ty->kind != TY_PTR)
       error_tok(node->lhs->tok, "pointer expected");
+    // The old value comes back in a register; a struct or union value
+    // would need an object to live in.
+    if (node->lhs->ty->base->kind == TY_STRUCT ||
+        node->lhs->ty->base->kind == TY_UNION)
+      error_tok(node->lhs->tok, "atomic exchange of a struct or union is not supported");
     switch (node->lhs->ty->base->size) {
     case 1: case 2: case 4: case 8:
       break;
